@@ -138,10 +138,10 @@ def boundary_cases(rng, thorough):
 
 
 
-def decide(run, texts, leg, shards, timeout_ms):
+def decide(run, texts, leg, shards, timeout_ms, ctx="bundled"):
     import time
     t0 = time.time()
-    res = evalkit.run_eval([{"qs": t, "render": True} for t in texts], ctx="bundled", timeout_ms=timeout_ms, shards=shards, tag="c04" + leg)
+    res = evalkit.run_eval([{"qs": t, "render": True} for t in texts], ctx=ctx, timeout_ms=timeout_ms, shards=shards, tag="c04" + leg)
     events = []
     for r, t in zip(res, texts):
         if "crash" in r:
@@ -173,7 +173,7 @@ def decide(run, texts, leg, shards, timeout_ms):
                                "msg": res[i].get("msg")},
                               "a reply or an error value, rendered as text, spans and JSON", {k: res[i].get(k) for k in ("crash", "msg", "signal", "stderr", "render")}, "pipeline")
     for i in retry:
-        r2 = evalkit.run_eval([{"qs": texts[i], "render": True}], ctx="bundled", timeout_ms=3 * timeout_ms, shards=1, tag="c04retry")[0]
+        r2 = evalkit.run_eval([{"qs": texts[i], "render": True}], ctx=ctx, timeout_ms=3 * timeout_ms, shards=1, tag="c04retry")[0]
         if "crash" in r2:
             nrej += 1
             run.violation({"engine": "pipeline", "leg": leg, "q": texts[i], "crash": r2.get("crash"), "why": "alone", "msg": r2.get("msg")},
@@ -242,6 +242,13 @@ def run(tier, seed):
     bnd = boundary_cases(rng, thorough)
     decide(run, bnd, "boundary", shards, tmo)
     run.sample({"leg": "boundary", "input": bnd[len(bnd) // 2]})
+    # the same library serves databases other than the bundled one: every template, every scale spelling and the display
+    # suffixes on a context with NO definitions at all (every name unknown, no kelvin, no zero points) must still answer
+    scales = ["degC", "°C", "celsius", "degF", "°F", "degRe", "degRo", "degDe", "degN", "K", "kelvin", "℃", "℉"]
+    foreign = VALID + ["25 -> %s" % sc for sc in scales] + ["25 %s" % sc for sc in scales] + ["25 %s -> %s" % (a, b) for a in scales[:4] for b in scales[:4]] + \
+        ["1 -> hex", "1|3 -> digits 5", "now", "units for m", "factorize m", "search m", "ans", "1 m", "m", "'a' 'b' -> 'a'", "3 'a' -> 'b';'a'"]
+    decide(run, list(dict.fromkeys(foreign)), "foreign-context", 2, tmo, ctx="empty")
+    run.sample({"leg": "foreign-context", "input": "25 -> degC"})
     uni = [rand_unicode(rng) for _ in range(20000 if thorough else 2000)]
     decide(run, uni, "unicode", shards, tmo)
     run.sample({"leg": "unicode", "input": uni[0]})
